@@ -40,6 +40,10 @@ def generate(repo, out_path):
         for qual in ("AWQBitsDequantizer.forward", "AWQBitsTensor.__init__", "AWQBitsTensor.qbits_tensor", "AWQBitsTensor.dequantize"):
             node = find(t2, qual)
             prints.append((qual, fingerprint(node) if node is not None else "MISSING"))
+        t4 = ast.parse(open(os.path.join(repo, "optimum/quanto/tensor/qbits/qbits.py")).read())
+        for qual in ("QBitsTensor.save_to_state_dict", "QBitsTensor.create", "QBitsTensor.optimize"):
+            node = find(t4, qual)
+            prints.append((qual, fingerprint(node) if node is not None else "MISSING"))
         t3 = ast.parse(open(os.path.join(repo, "external/awq/pack_intweight.py")).read())
         node = find(t3, "pack_intweight")
         prints.append(("external.pack_intweight", fingerprint(node) if node is not None else "MISSING"))
